@@ -639,7 +639,16 @@ func handleInputStream(s *Session, handler Handler) (err error) {
 	iqNeedsResp := typ == string(stanza.GetIQ) || typ == string(stanza.SetIQ)
 	// If the user did not write a response to an IQ, send a default one.
 	if iqOk && iqNeedsResp && !rw.wroteResp {
-		_, fromAttr := attr.Get(start.Attr, "from")
+		// The sender is named by the stanza's own from attribute, which has no
+		// namespace: ignore attributes that merely share its local name (eg.
+		// x:from).
+		var fromAttr string
+		for _, a := range start.Attr {
+			if a.Name.Space == "" && a.Name.Local == "from" {
+				fromAttr = a.Value
+				break
+			}
+		}
 		var to jid.JID
 		if fromAttr != "" {
 			to, err = jid.Parse(fromAttr)
